@@ -73,11 +73,11 @@ class Result:
         self.findings.append(f)
         return f
 
-    def check(self, cond: bool, instance: str, where: str, msg: str, expected="", found="", rid=None):
+    def check(self, cond: bool, instance: str, where: str, msg: str, expected="", found="", rid=None, path=None):
         if cond:
             self.ok(instance, rid)
         else:
-            self.bad(instance, where, msg, expected, found, rid=rid)
+            self.bad(instance, where, msg, expected, found, path=path, rid=rid)
         return cond
 
     def note(self, s):
